@@ -19,7 +19,7 @@ def nontrivial(g, o):
 def check(run, replay=None):
     rule = {
         "oracle": "closed form (1+mN)r^N mod N^2, decrypt = decrypt_fast = m, paths agree with an independent "
-                  "L(c^phi)/phi on arbitrary units, N-th root, key restored from minimal form / bincode behaves "
+                  "L(c^phi)/phi on arbitrary units, N-th root of r^N mod N and of every ciphertext reduced mod N (returns the randomiser), key restored from minimal form / bincode behaves "
                   "identically, message admits iff value < N, Deserialize rejects zero/even",
         "text": ("keys: all %s ordered pairs of distinct odd primes <= 31 with gcd(N,phi)=1 in every limb configuration; "
                  "mid-size keys (17..62-bit primes, balanced and unbalanced); four key-sized keys per configuration "
